@@ -28,7 +28,8 @@ import (
 //
 // Oracle (independent of the Lean model): brute force for small graphs (subset enumeration, plain backtracking, set
 // partitions into independent sets), witness validation at every size, equality of all values across DenseGraph,
-// SparseGraph, Complement(Complement) view, InducedSubgraph identity view and a random relabelling.
+// SparseGraph, Complement(Complement) view, Complement view of the sparse complement, InducedSubgraph identity view and a
+// random relabelling.
 
 const (
 	c09BFN     = 10 // brute force over vertex subsets up to this n
@@ -595,6 +596,7 @@ func c09Forms(g EG, r *rand.Rand) []c09Form {
 		{"sparse", g, g.Sparse(), func() graph.EditableGraph { return g.Sparse() }, nil},
 		{"complement-of-complement view", g, graph.Complement(graph.Complement(g.Dense())), nil, nil},
 		{"induced-subgraph identity view", g, graph.InducedSubgraph(g.Sparse(), id), nil, nil},
+		{"complement view of the sparse complement", g, graph.Complement(c09Complement(g).Sparse()), nil, nil},
 		{"relabelled dense", h, h.Dense(), func() graph.EditableGraph { return h.Dense() }, p},
 		{"relabelled sparse", h, h.Sparse(), func() graph.EditableGraph { return h.Sparse() }, p},
 	}
